@@ -289,7 +289,7 @@ pub struct Stmt {
 
 const GROUPS: [&str; 5] = ["", "GROUP BY k", "GROUP BY k, g", "GROUP BY upper(k)", "GROUP BY g"];
 const FILTERS: [&str; 3] = ["", "WHERE v IS NOT NULL", "WHERE g = 1"];
-const HAVINGS: [&str; 9] = ["", "HAVING COUNT(*) > 1", "HAVING k IS NOT NULL", "HAVING SUM(v) > 2", "HAVING MAX(v) = 3", "HAVING COUNT(v) = 0", "HAVING COUNT(*) > 1 AND SUM(v) > 2", "HAVING SUM(v) > 2 AND COUNT(*) > 1", "HAVING MAX(v) = 3 OR COUNT(v) = 0"];
+const HAVINGS: [&str; 11] = ["", "HAVING COUNT(*) > 1", "HAVING k IS NOT NULL", "HAVING SUM(v) > 2", "HAVING MAX(v) = 3", "HAVING COUNT(v) = 0", "HAVING COUNT(*) > 1 AND SUM(v) > 2", "HAVING SUM(v) > 2 AND COUNT(*) > 1", "HAVING MAX(v) = 3 OR COUNT(v) = 0", "HAVING COUNT(DISTINCT v) = 1", "HAVING COUNT(DISTINCT v) < COUNT(v)"];
 
 fn keys_of(group_by: usize) -> Vec<&'static str> {
     match group_by {
@@ -386,11 +386,21 @@ fn reference(st: &Stmt, input: &[&Row]) -> Option<Vec<RefGroup>> {
                 Cell::Val(RVal::Null) => Some(false),
                 _ => None,
             },
-            _ => match agg_value(&its[10], &grows) {
+            8 => match agg_value(&its[10], &grows) {
                 Cell::Val(RVal::Int(m)) => Some(m == 3 || nonnull(&grows, "v").is_empty()),
                 Cell::Val(RVal::Null) => Some(nonnull(&grows, "v").is_empty()),
                 _ => None,
             },
+            _ => {
+                let vals = nonnull(&grows, "v");
+                let mut d: Vec<&RVal> = Vec::new();
+                for x in &vals {
+                    if !d.iter().any(|y| ref_eq(x, y)) {
+                        d.push(x);
+                    }
+                }
+                Some(if st.having == 9 { d.len() == 1 } else { d.len() < vals.len() })
+            }
         };
         let keep = keep?;
         if !keep {
@@ -416,7 +426,7 @@ fn reference(st: &Stmt, input: &[&Row]) -> Option<Vec<RefGroup>> {
         let having_entry = match st.having {
             1 | 6 | 7 | 8 => true,                     // COUNT(*) / SUM / MAX are present
             3 | 4 => true,                             // SUM / MAX create NULL entries
-            5 => !nonnull(&grows, "v").is_empty(),     // COUNT(v)
+            5 | 9 | 10 => !nonnull(&grows, "v").is_empty(), // COUNT(v) / COUNT(DISTINCT v)
             _ => false,
         };
         out.push(RefGroup { key, cells, entryless_all_null: any_agg && all_entryless && !having_entry });
@@ -584,6 +594,10 @@ fn statements(thorough: bool) -> Vec<Stmt> {
                 }
                 // the wrapped counts (items 29, 30) are paired with a reduced partner set in the quick tier
                 if !thorough && (a >= 29 || bq >= 29) && ![0usize, 3, 7, 13].contains(&a.min(bq)) && !(a >= 31 && bq >= 31) {
+                    continue;
+                }
+                // quick tier: under the HAVING variants other than COUNT(*) > 1 the second item comes from a reduced set
+                if !thorough && *h >= 2 && ![0usize, 3, 7, 10, 13, 23].contains(&bq) {
                     continue;
                 }
                 let s = Stmt { distinct: false, items: vec![a, bq], group_by: *g, filter: *f, having: *h };
